@@ -1,9 +1,165 @@
 package c04
 
-import "verif.local/mc/report"
+import (
+	"context"
+	"fmt"
+	"strings"
+	"time"
 
-// operatorPart registers C11's operator-side parts (minimum over upstreams): added below.
-func operatorPart(k *report.Check) {}
+	"reduction.dev/reduction/batching"
+	"reduction.dev/reduction/clocks"
+	"reduction.dev/reduction/connectors/embedded"
+	"reduction.dev/reduction/dkv/storage"
+	"reduction.dev/reduction/proto/jobpb"
+	"reduction.dev/reduction/proto/workerpb"
+	"reduction.dev/reduction/workers/operator"
+	"verif.local/mc/harness/dkvh"
+	"verif.local/mc/harness/oph"
+	"verif.local/mc/harness/schedh"
+	"verif.local/mc/mc"
+	"verif.local/mc/report"
+	"verif.local/mc/shim"
+)
 
-// splitterParts registers C16's split-assignment parts: added below.
-func splitterParts(k *report.Check) {}
+// operatorPart: C11's operator side. A real Operator with U upstream source runners; every
+// merge order of per-runner message sequences (the operator consumes them one at a time, so
+// merge orders are all interleavings there are).
+func operatorPart(k *report.Check) {
+	for u := 1; u <= k.Pick(2, 3); u++ {
+		k.ExploreSched(fmt.Sprintf("operator-min-watermark/upstreams=%d", u), mc.Config{Bound: 0}, oparams{ups: u, msgs: k.Pick(4, 5)}, operatorBody)
+	}
+}
+
+type oparams struct{ ups, msgs int }
+
+var opSeq int
+
+func operatorBody(c *mc.Ctx) {
+	p := c.Param.(oparams)
+	opSeq++
+	base := fmt.Sprintf("/x%d", opSeq)
+	root := dkvh.NewFS()
+	storage.VerifRegisterFS("memory://"+base, func(loc string) storage.FileSystem {
+		return root.WithWorkingDir(strings.TrimPrefix(loc, "memory://"))
+	})
+	defer storage.VerifRegisterFS("memory://"+base, nil)
+	h := oph.NewHandler()
+	job := oph.NewJob(h)
+	srIDs := make([]string, p.ups)
+	for i := range srIDs {
+		srIDs[i] = fmt.Sprintf("sr%d", i)
+	}
+	// model
+	reported := map[string]int64{} // unix seconds; absent = not reported yet (counts as the epoch)
+	eff := func() int64 {
+		m := int64(1 << 40)
+		for _, id := range srIDs {
+			v, ok := reported[id]
+			if !ok {
+				v = 0
+			}
+			m = min(m, v)
+		}
+		return m
+	}
+	type told struct {
+		applied int
+		want    int64
+		what    string
+	}
+	var checks []told
+	var errs []string
+	pending := map[int64]bool{} // timers set and not yet due
+	schedh.Run(c, schedh.Opts{MaxSteps: 6000, NoAdvanceAlt: true}, func() {
+		ctx, cancel := context.WithCancel(context.Background())
+		op := operator.NewOperator(operator.NewOperatorParams{ID: "op", UserHandler: h, Job: job, Clock: clocks.NewFrozenClock(), EventBatching: batching.EventBatcherParams{MaxSize: 1}})
+		started := make(chan struct{})
+		shim.Go(func() { op.Start(ctx); shim.Close(started) })
+		shim.Recv(job.Registered)
+		if err := op.HandleDeploy(ctx, &workerpb.DeployOperatorRequest{Operators: []*jobpb.NodeIdentity{{Id: "op"}}, SourceRunnerIds: srIDs, KeyGroupCount: 4, StorageLocation: "memory://" + base}, &embedded.RecordingSink{}); err != nil {
+			panic(fmt.Sprintf("mc: harness: deploy: %v", err))
+		}
+		n := 0
+		for step := 0; step < p.msgs; step++ {
+			kinds := 4 // event, timer-setting event, watermark 2, watermark 5
+			choice := c.Choose(1 + p.ups*kinds)
+			if choice == 0 {
+				break
+			}
+			sender := srIDs[(choice-1)/kinds]
+			var err error
+			switch (choice - 1) % kinds {
+			case 0:
+				id := fmt.Sprintf("e%d", n)
+				n++
+				c.Op("%s:event(%s)", sender, id)
+				checks = append(checks, told{len(h.Applied), eff(), "event " + id})
+				err = op.HandleEvent(ctx, sender, oph.Keyed("a", id, 1))
+			case 1:
+				id := fmt.Sprintf("T4:e%d", n)
+				n++
+				c.Op("%s:event(%s sets timer@4)", sender, id)
+				checks = append(checks, told{len(h.Applied), eff(), "event " + id})
+				if eff() < 4 {
+					pending[4] = true
+				}
+				err = op.HandleEvent(ctx, sender, oph.Keyed("a", id, 1))
+			default:
+				w := []int64{2, 5}[(choice-1)%kinds-2]
+				if prev, ok := reported[sender]; ok && prev > w {
+					continue // a runner's watermark does not decrease
+				}
+				c.Op("%s:watermark(%d)", sender, w)
+				reported[sender] = w
+				before := len(h.Applied)
+				err = op.HandleEvent(ctx, sender, oph.Watermark(w))
+				// timers due at the new minimum must have fired exactly now, others must not
+				fired := 0
+				for _, a := range h.Applied[before:] {
+					if a.Timer {
+						fired++
+						var secs int64
+						fmt.Sscanf(a.ID, "timer@%d", &secs)
+						if secs > eff() {
+							errs = append(errs, fmt.Sprintf("timer@%d fired although the minimum of the upstream watermarks is %d (reported: %v)", secs, eff(), reported))
+						}
+						if a.WM != time.Unix(eff(), 0).UnixNano() {
+							errs = append(errs, fmt.Sprintf("the handler was told watermark %v with timer@%d, the minimum over upstreams is %ds", time.Unix(0, a.WM).UTC(), secs, eff()))
+						}
+					}
+				}
+				if pending[4] && eff() >= 4 {
+					if fired == 0 {
+						errs = append(errs, fmt.Sprintf("timer@4 did not fire although every upstream reported a watermark >= 4 (reported: %v)", reported))
+					}
+					delete(pending, 4)
+				}
+			}
+			if err != nil {
+				errs = append(errs, err.Error())
+			}
+		}
+		cancel()
+		shim.Recv(started)
+	})
+	if len(h.Failures) > 0 {
+		c.FailSig("handler-state", "handler saw wrong state: %v", h.Failures)
+	}
+	if len(errs) > 0 {
+		sig := "operator-watermark"
+		if strings.Contains(errs[0], "fired although") {
+			sig = "timer-fired-above-minimum"
+		}
+		c.FailSig(sig, "%s", strings.Join(errs, "; "))
+	}
+	for _, t := range checks {
+		if t.applied >= len(h.Applied) {
+			c.Failf("%s was not applied", t.what)
+		}
+		got := h.Applied[t.applied].WM
+		if want := time.Unix(t.want, 0).UnixNano(); got != want {
+			c.FailSig("handler-told-wrong-watermark", "with %s the handler was told watermark %v; the minimum over the upstream watermarks (a runner that has not reported counts as the epoch) is %v", t.what, time.Unix(0, got).UTC(), time.Unix(t.want, 0).UTC())
+		}
+	}
+	c.Nontrivial(fmt.Sprint(p.ups, c.Ops()))
+}
